@@ -570,3 +570,61 @@ extend('C19', 'Rounds 3-5: T1 on the pool-client chains; no peer talker '
 extend('C20', 'Rounds 3-5: every return of encode_7bit lies behind the '
        'ASCII probe of the body; no strict text codec lets an exception '
        'out of Envelope.parse.')
+
+# rules added in round 6 (DESIGN.md §4 third table, §10 Round 6)
+extend('C01', 'Round 6: settled positions named in the envelope at hand '
+       '(= R3.6); the relay is not tested by truthiness where a Relay '
+       'subclass overloads it.')
+extend('C02', 'Round 6: after a failure test on a policy-chain result the '
+       'reply that reaches HAVE_DATA is written before the handler returns.',
+       'typestate on the reply written after a failure test')
+extend('C05', 'Round 6: no fixed index into the part list of the dot '
+       'stuffer; raw_send only from flush_send; handle_finished_line only '
+       'per finished line.')
+extend('C06', 'Round 6: the generator settings of Envelope.flatten do not '
+       'depend on a caller-set argument (both ends flatten alike); the path '
+       'of MAIL / RCPT is the address argument, encoded only (a rewrite '
+       'guarded by a pattern with an ASCII-only class is reported).',
+       'value-provenance walk from the command literal to the method '
+       'argument; regex character-class inspection')
+extend('C07', 'Round 6: the MAIL pattern rejects the RCPT keyword and vice '
+       'versa (regex syntax tree run on the client literal, IGNORECASE '
+       'honoured); the command reader returns only where the line search '
+       'succeeded.', 'typestate on the line-search result with nullness '
+       'pruning')
+extend('C08', 'Round 6: the SASL challenge history belongs to one AUTH '
+       'command (local list, or object state emptied before first use).')
+extend('C09', 'Round 6: the data reader cuts lines at LF only (no '
+       'splitlines / universal-newline splitter; cutter patterns end in a '
+       'literal LF).')
+extend('C10', 'Round 6: no raise of the receive path depends on the amount '
+       'buffered (= G8, aliases of the buffer included); a resumed search '
+       'for a multi-byte needle does not start at the old buffer length.')
+extend('C11', 'Round 6: no attempt() returns an entry of a per-recipient '
+       'table it received; an index reduced modulo len(A) indexes A; a '
+       'whole-envelope failure is not made from one fixed entry of the '
+       'per-recipient replies (D33 is the recorded instance).')
+extend('C13', 'Round 6: relay errors carry a reply made for that failure '
+       '(no module-level / imported Reply object); recipients and replies '
+       'handed on together are not reordered separately.')
+extend('C14', 'Round 6: no `assert self.client ...` inside an except arm of '
+       '_run is reached with the attribute unset and the request unsettled '
+       '(a connect timeout still ends the attempt).',
+       'typestate (attribute set, request settled) over Timeout / assert '
+       'edges')
+extend('C15', 'Round 6: the disk backend never removes a directory; indexes '
+       'of one set_recipients_delivered call are not adjusted against marks '
+       'of the same call.')
+extend('C16', 'Round 6: add_policy appends on every path that returns.')
+extend('C17', 'Round 6: the separator group of reply_line_pattern cannot '
+       'match nothing; what the message getter renders after the enhanced '
+       'status code is a separator the setter\'s pattern takes.')
+extend('C18', 'Round 6: table look-ups tested by truthiness have no falsy '
+       'entry (AF_UNSPEC); the proxyproto_* log calls do not take the '
+       'address apart outside a type guard.')
+extend('C19', 'Round 6: the request typestate follows the identity of the '
+       'live request (a stale name kept by the caller does not settle it) '
+       'and reports a settle after the request was given back to the queue; '
+       'only pool clients settle requests.')
+extend('C20', 'Round 6: a cloned policy keeps the 78-byte refolding '
+       'threshold; nothing branches on the identity of a policy object.')
